@@ -328,7 +328,10 @@ pub fn judge(sc: &Scenario, out: &Outcome) -> Vec<Violation> {
 
     // --- termination / crash -------------------------------------------------
     if let Some(p) = &out.panic {
-        if p.contains("SIM-STEP-BOUND") { add(term_props(), "no-termination", p.clone()); }
+        if p.contains("SIM-STEP-BOUND") {
+            // `*-large` arms: the pop budget is not provably sufficient (see runner.rs): exhausting it is inconclusive, not a violation
+            if sc.max_steps < 2_000_000 { add(term_props(), "no-termination", p.clone()); }
+        }
         else {
             // a crash is a failure to terminate properly (C04 / C01) and, for an uninterrupted parallel run, also a failure to report the optimum (C03)
             let mut props = term_props();
